@@ -1,6 +1,7 @@
 package c11
 
 import (
+	"encoding/json"
 	"errors"
 	"fmt"
 	"runtime"
@@ -15,22 +16,30 @@ import (
 
 // Violation is one oracle finding of a schedule.
 type Violation struct {
-	Sig     string `json:"sig"`
-	What    string `json:"what"`
-	Witness any    `json:"witness"`
+	Sig     string          `json:"sig"`
+	What    string          `json:"what"`
+	Witness json.RawMessage `json:"witness"` // kept raw so that 64-bit seeds survive re-encoding
+}
+
+func rawJSON(v any) json.RawMessage {
+	b, err := json.Marshal(v)
+	if err != nil {
+		b, _ = json.Marshal(map[string]string{"marshal_error": err.Error()})
+	}
+	return b
 }
 
 // SubSummary is what was observed for one subscriber.
 type SubSummary struct {
-	Plan        SubPlan `json:"plan"`
-	Height      uint32  `json:"height"`
-	Outcome     string  `json:"outcome"` // ok | backlog-error | stopped | error-other
-	Backlog     int     `json:"backlog"`
-	Expected    int     `json:"expected"`
-	Received    int     `json:"received"`
-	Cancelled   bool    `json:"cancelled"`
-	Closed      bool    `json:"closed"`
-	Stream      []Item  `json:"stream,omitempty"`
+	Plan      SubPlan `json:"plan"`
+	Height    uint32  `json:"height"`
+	Outcome   string  `json:"outcome"` // ok | backlog-error | stopped | error-other
+	Backlog   int     `json:"backlog"`
+	Expected  int     `json:"expected"`
+	Received  int     `json:"received"`
+	Cancelled bool    `json:"cancelled"`
+	Closed    bool    `json:"closed"`
+	Stream    []Item  `json:"stream,omitempty"`
 }
 
 // Result is the outcome of one schedule.
@@ -92,14 +101,14 @@ type env struct {
 	halted      bool
 
 	stopBegunTick atomic.Int64 // logical time just before Stop was called; 0 = not yet
-	stopBegun  atomic.Bool
-	stopBegin  chan struct{} // closed just before Stop is called
-	halt       chan struct{} // closed after Stop returned
-	stopOnce   sync.Once
-	stopDone   chan struct{}
-	stopOp     atomic.Value
-	emitOp     atomic.Value
-	emitDoneCh chan struct{}
+	stopBegun     atomic.Bool
+	stopBegin     chan struct{} // closed just before Stop is called
+	halt          chan struct{} // closed after Stop returned
+	stopOnce      sync.Once
+	stopDone      chan struct{}
+	stopOp        atomic.Value
+	emitOp        atomic.Value
+	emitDoneCh    chan struct{}
 
 	rmu   sync.Mutex
 	rcond *sync.Cond
@@ -109,7 +118,14 @@ type env struct {
 	wd   time.Duration
 }
 
-func (e *env) count(k string, n int64) { e.res.Counters[k] += n }
+// count adds to a result counter; counters of storm-family schedules are
+// kept apart so that they do not drown the general family's.
+func (e *env) count(k string, n int64) {
+	if e.sc.Family == FamStorm {
+		k = "storm_" + k
+	}
+	e.res.Counters[k] += n
+}
 
 // waitTrigger blocks until the emitter handed over at least p events, or is
 // done, or the manager was stopped.
@@ -330,16 +346,30 @@ func (e *env) await(what string, done <-chan struct{}) bool {
 	}
 	e.res.Poisoned = true
 	ops := e.stuckOps()
+	// The signature names what was awaited and which calls into the code
+	// under test had not returned; what the harness's own goroutines were
+	// doing meanwhile (reading, stalled, waiting for a trigger) only goes
+	// into the witness.
+	var calls []string
+	for _, o := range ops {
+		switch o {
+		case "NewSubscription", "Cancel", "Stop", "emit-send":
+			calls = append(calls, o)
+		}
+	}
+	if len(calls) == 0 {
+		calls = []string{"no-call-pending"}
+	}
 	if !blocked {
 		e.res.Inconclusive = append(e.res.Inconclusive,
 			fmt.Sprintf("watchdog waiting for %s but goroutines still move (%s)", what, why))
 		return false
 	}
 	e.res.Violations = append(e.res.Violations, Violation{
-		Sig: "blocked-forever/" + what + "/" + strings.Join(ops, "+"),
+		Sig: "blocked-forever/" + what + "/" + strings.Join(calls, "+"),
 		What: fmt.Sprintf("waiting for %q did not finish within %v and two goroutine dumps 2 s apart show every "+
 			"goroutine parked in the same frame (harness operations still pending: %s)", what, e.wd, strings.Join(ops, ", ")),
-		Witness: map[string]any{
+		Witness: rawJSON(map[string]any{
 			"schedule":       e.sc,
 			"pending_ops":    ops,
 			"parked_frames":  relevantFrames(d2),
@@ -348,7 +378,7 @@ func (e *env) await(what string, done <-chan struct{}) bool {
 			"subs":           e.summaries(true),
 			"handed_over":    len(e.src.snapshot()),
 			"classification": why,
-		},
+		}),
 	})
 	return false
 }
@@ -385,7 +415,11 @@ func (e *env) stuckOps() []string {
 	select {
 	case <-e.emitDoneCh:
 	default:
-		add(e.emitOp.Load())
+		select {
+		case <-e.start:
+			add(e.emitOp.Load())
+		default:
+		}
 	}
 	add(e.stopOp.Load())
 	out := make([]string, 0, len(m))
@@ -418,7 +452,7 @@ func RunPlan(sc Schedule, p Params) (res Result) {
 			res.Violations = append(res.Violations, Violation{
 				Sig:     "panic/in-caller",
 				What:    fmt.Sprintf("panic on the calling goroutine: %v", r),
-				Witness: map[string]any{"schedule": sc, "stack": string(buf)},
+				Witness: rawJSON(map[string]any{"schedule": sc, "stack": string(buf)}),
 			})
 		}
 	}()
@@ -531,6 +565,24 @@ func (e *env) run() {
 		}, "full-stream(released)") {
 			return
 		}
+		// (3) While the manager is still running: every subscriber whose
+		// Cancel has been called sees its channel closed.
+		for _, s := range e.subs {
+			if s.plan.Racer || s.plan.Cancel == CancelAfterStop {
+				continue
+			}
+			s.mu.Lock()
+			c := s.cancelCalled
+			s.mu.Unlock()
+			if !c {
+				continue
+			}
+			s.relOnce.Do(func() { close(s.release) })
+			if !e.await("channel-closed-after-cancel(manager-running)", s.done) {
+				return
+			}
+			e.count("closed_after_cancel_while_running", 1)
+		}
 		go e.doStop()
 	}
 	if !e.await("Stop", e.stopDone) {
@@ -538,7 +590,16 @@ func (e *env) run() {
 	}
 	e.releaseAll()
 	for _, s := range e.subs {
-		if !e.await("subscriber-finish", s.done) {
+		what := "channel-closed-after-stop"
+		select {
+		case <-s.subscribed:
+			if s.sub == nil {
+				what = "failed-subscriber-exit"
+			}
+		default:
+			what = "NewSubscription-after-stop"
+		}
+		if !e.await(what, s.done) {
 			return
 		}
 	}
